@@ -1,2 +1,865 @@
 (* Lemmas behind Props/C18.v. *)
 From TT Require Import Lib.Base Model.Router Spec.C18 Corr.C18.
+
+(* ---------- equality tests decide equality ---------- *)
+Lemma onat_eqb_spec a b : onat_eqb a b = true <-> a = b.
+Proof. apply option_eqb_spec. exact Nat.eqb_eq. Qed.
+Lemma lnat_eqb_spec a b : lnat_eqb a b = true <-> a = b.
+Proof. apply list_eqb_spec. exact Nat.eqb_eq. Qed.
+Lemma olnat_eqb_spec a b : option_eqb lnat_eqb a b = true <-> a = b.
+Proof. apply option_eqb_spec. exact lnat_eqb_spec. Qed.
+Lemma route_eqb_spec a b : route_eqb a b = true <-> a = b.
+Proof. exact (olnat_eqb_spec a b). Qed.
+Lemma id_eqb_spec a b : id_eqb a b = true <-> a = b.
+Proof. exact (onat_eqb_spec a b). Qed.
+
+Lemma event_eqb_spec a b : event_eqb a b = true <-> a = b.
+Proof.
+  destruct a as [a1 a2 a3 a4 a5 a6 a7 a8 a9 a10], b as [b1 b2 b3 b4 b5 b6 b7 b8 b9 b10].
+  unfold event_eqb; simpl. rewrite !andb_true_iff, !onat_eqb_spec, !olnat_eqb_spec, !bool_eqb_spec, ?route_eqb_spec.
+  split.
+  - intros [[[[[[[[[-> ->] ->] ->] ->] ->] ->] ->] ->] ->]. reflexivity.
+  - intro H; injection H; intros; subst. repeat split.
+Qed.
+
+Lemma call_eqb_spec a b : call_eqb a b = true <-> a = b.
+Proof.
+  destruct a as [| |x], b as [| |y]; simpl; try (split; [reflexivity|reflexivity]); try (split; discriminate).
+  rewrite event_eqb_spec. split; [intros ->; reflexivity | intro H; injection H; auto].
+Qed.
+
+Lemma calls_eqb_spec a b : list_eqb call_eqb a b = true <-> a = b.
+Proof. apply list_eqb_spec. exact call_eqb_spec. Qed.
+
+Lemma step_obs_eqb_spec a b : step_obs_eqb a b = true <-> a = b.
+Proof.
+  destruct a as [a1 a2], b as [b1 b2]. unfold step_obs_eqb; simpl.
+  rewrite andb_true_iff, bool_eqb_spec, (list_eqb_spec _ calls_eqb_spec).
+  split; [intros [-> ->]; reflexivity | intro H; injection H; auto].
+Qed.
+
+Theorem obs_eqb_spec a b : obs_eqb a b = true <-> a = b.
+Proof.
+  destruct a as [a1 a2], b as [b1 b2]. unfold obs_eqb; simpl.
+  rewrite andb_true_iff, (list_eqb_spec _ step_obs_eqb_spec), (list_eqb_spec _ route_eqb_spec).
+  split; [intros [-> ->]; reflexivity | intro H; injection H; auto].
+Qed.
+
+(* ---------- new_is reflects New_is ---------- *)
+Lemma forallb_combine_seq (P : list call -> nat -> bool) new : forall a,
+  forallb (fun kc => P (snd kc) (fst kc)) (combine (seq a (length new)) new) = true
+  <-> forall k, k < length new -> P (nth k new []) (a + k) = true.
+Proof.
+  induction new as [|x r IH]; intro a; simpl.
+  - split; [intros _ k Hk; lia | reflexivity].
+  - rewrite andb_true_iff, IH. split.
+    + intros [H0 H] [|k] Hk; [rewrite Nat.add_0_r; exact H0|].
+      rewrite Nat.add_succ_r. apply (H k). lia.
+    + intro H. split; [specialize (H 0); rewrite Nat.add_0_r in H; apply H; lia|].
+      intros k Hk. specialize (H (S k)). rewrite Nat.add_succ_r in H. apply H. lia.
+Qed.
+
+Lemma new_is_spec n f new : new_is n f new = true <-> New_is n f new.
+Proof.
+  unfold new_is, New_is. rewrite andb_true_iff, Nat.eqb_eq. split.
+  - intros [<- H]. split; [reflexivity|].
+    intros k Hk. apply calls_eqb_spec.
+    exact (proj1 (forallb_combine_seq (fun c k => list_eqb call_eqb c (f k)) new 0) H k Hk).
+  - intros [<- H]. split; [reflexivity|].
+    apply (forallb_combine_seq (fun c k => list_eqb call_eqb c (f k)) new 0).
+    intros k Hk. apply calls_eqb_spec. exact (H k Hk).
+Qed.
+
+(* ---------- the observation format ---------- *)
+Lemma per_sink_new_is n ds : New_is n (calls_for ds) (per_sink n ds).
+Proof.
+  unfold New_is, per_sink. rewrite map_length, seq_length. split; [reflexivity|].
+  intros k Hk. rewrite (nth_indep _ [] (calls_for ds 0)) by (rewrite map_length, seq_length; exact Hk).
+  rewrite map_nth, seq_nth by exact Hk. reflexivity.
+Qed.
+
+Lemma New_is_ext n f g new : (forall k, k < n -> f k = g k) -> New_is n f new -> New_is n g new.
+Proof. intros E [L H]. split; [exact L|]. intros k Hk. rewrite <- E by exact Hk. apply H; exact Hk. Qed.
+
+Lemma per_sink_ok n ds f : (forall k, k < n -> calls_for ds k = f k) -> new_is n f (per_sink n ds) = true.
+Proof. intro E. apply new_is_spec. apply (New_is_ext n (calls_for ds)); [exact E | apply per_sink_new_is]. Qed.
+
+Lemma calls_for_nil k : calls_for [] k = [].
+Proof. reflexivity. Qed.
+
+Lemma calls_for_one s c k : calls_for [(s, c)] k = only s c k.
+Proof. unfold calls_for, only; simpl. rewrite (Nat.eqb_sym k s). destruct (Nat.eqb s k); reflexivity. Qed.
+
+Lemma calls_for_map (c : call) sinks k :
+  calls_for (map (fun s => (s, c)) sinks) k = repeat c (count k sinks).
+Proof.
+  unfold calls_for, count. induction sinks as [|x r IH]; simpl; [reflexivity|].
+  destruct (Nat.eq_dec x k) as [->|N].
+  - rewrite Nat.eqb_refl. simpl. rewrite IH. reflexivity.
+  - apply Nat.eqb_neq in N. rewrite N. exact IH.
+Qed.
+
+(* ---------- route codes: push and pop ---------- *)
+Lemma first_seg_route_code c r : first_seg (route_code c r) = Some c.
+Proof. destruct r; reflexivity. Qed.
+
+Lemma strip_route_code c r : route_wf r = true -> strip_first (route_code c r) = r.
+Proof. destruct r as [[|s l]|]; simpl; intro H; [discriminate | reflexivity | reflexivity]. Qed.
+
+Lemma route_code_strip p r : first_seg r = Some p -> route_code p (strip_first r) = r.
+Proof.
+  destruct r as [[|s [|t l]]|]; simpl; intro H; try discriminate; injection H as ->; reflexivity.
+Qed.
+
+Lemma strip_wf r : route_wf (strip_first r) = true.
+Proof. destruct r as [[|s [|t l]]|]; reflexivity. Qed.
+
+Lemma route_code_wf c r : route_wf (route_code c r) = true.
+Proof. destruct r; reflexivity. Qed.
+
+Lemma route_code_inj p r r' :
+  route_wf r = true -> route_wf r' = true -> route_code p r = route_code p r' -> r = r'.
+Proof. intros H H' E. rewrite <- (strip_route_code p r H), <- (strip_route_code p r' H'), E. reflexivity. Qed.
+
+Lemma push_all_snoc via c r : push_all (via ++ [c]) r = route_code c (push_all via r).
+Proof. unfold push_all. rewrite fold_left_app. reflexivity. Qed.
+
+Lemma push_all_wf via r : route_wf r = true -> route_wf (push_all via r) = true.
+Proof.
+  induction via as [|c via IH] using rev_ind; intro H; [exact H|].
+  rewrite push_all_snoc. apply route_code_wf.
+Qed.
+
+Lemma set_route_set_route e a b : set_route (set_route e a) b = set_route e b.
+Proof. reflexivity. Qed.
+Lemma set_route_same e : set_route e (e_route e) = e.
+Proof. destruct e; reflexivity. Qed.
+Lemma e_route_set_route e a : e_route (set_route e a) = a.
+Proof. reflexivity. Qed.
+Lemma e_id_set_route e a : e_id (set_route e a) = e_id e.
+Proof. reflexivity. Qed.
+
+(* one consuming router undoes one StreamToQueue *)
+Lemma pop_one c e rest r :
+  route_wf r = true ->
+  pop_chain (c :: rest) (set_route e (route_code c r)) = pop_chain rest (set_route e r).
+Proof.
+  intro H. simpl. unfold route_status. simpl.
+  rewrite first_seg_route_code. simpl. rewrite Nat.eqb_refl.
+  rewrite strip_route_code by exact H. reflexivity.
+Qed.
+
+Theorem roundtrip_id via e : route_wf (e_route e) = true -> roundtrip via e = e.
+Proof.
+  intro H. unfold roundtrip, pushed. induction via as [|c via IH] using rev_ind.
+  - simpl. apply set_route_same.
+  - rewrite rev_app_distr, push_all_snoc. simpl rev. simpl app.
+    rewrite pop_one by (apply push_all_wf; exact H). exact IH.
+Qed.
+
+(* ---------- dictionaries ---------- *)
+Lemma get_put {K V} (eqb : K -> K -> bool) (Heq : forall a b, eqb a b = true <-> a = b) (k k' : K) (v : V) d :
+  get eqb k (put eqb k' v d) = if eqb k k' then Some v else get eqb k d.
+Proof.
+  induction d as [|[k0 v0] r IH]; simpl.
+  - reflexivity.
+  - destruct (eqb k' k0) eqn:E1; simpl.
+    + apply Heq in E1. subst k0. destruct (eqb k k'); reflexivity.
+    + destruct (eqb k k0) eqn:E2.
+      * apply Heq in E2. subst k0. destruct (eqb k k') eqn:E3; [|reflexivity].
+        apply Heq in E3. subst k'. assert (eqb k k = true) by (apply Heq; reflexivity). congruence.
+      * exact IH.
+Qed.
+
+(* ---------- what the history says, one more call later ---------- *)
+Lemma registered_snoc i past o : registered i (past ++ [o]) = registered i past ++ registration o.
+Proof. unfold registered. rewrite flat_map_app. simpl. rewrite app_nil_r, app_assoc. reflexivity. Qed.
+
+Lemma in_run_snoc past o :
+  in_run (past ++ [o]) = match o with Start => true | Stop => false | _ => in_run past end.
+Proof. unfold in_run. rewrite fold_left_app. reflexivity. Qed.
+
+Lemma prefix_rules_snoc past o p :
+  prefix_rules (past ++ [o]) p
+  = prefix_rules past p ++ match o with AddPrefix s q c _ => if Nat.eqb q p then [(s, c)] else [] | _ => [] end.
+Proof. unfold prefix_rules. rewrite flat_map_app. simpl. rewrite app_nil_r. reflexivity. Qed.
+
+Lemma id_rules_snoc past o t :
+  id_rules (past ++ [o]) t
+  = id_rules past t ++ match o with AddId s u _ => if id_eqb u t then [s] else [] | _ => [] end.
+Proof. unfold id_rules. rewrite flat_map_app. simpl. rewrite app_nil_r. reflexivity. Qed.
+
+(* ---------- the invariant: the router's fields are functions of the history ---------- *)
+Record Inv (i : input) (past : list op) (r : router) : Prop := {
+  inv_fb : r_fallback r = fb i;
+  inv_pre : forall p, match get Nat.eqb p (r_prefixes r) with
+                      | Some sc => In sc (prefix_rules past p)
+                      | None => prefix_rules past p = []
+                      end;
+  inv_ids : forall t, match get id_eqb t (r_ids r) with
+                      | Some s => In s (id_rules past t)
+                      | None => id_rules past t = []
+                      end;
+  inv_sinks : r_sinks r = registered i past;
+  inv_run : r_in_run r = in_run past }.
+
+Lemma inv_init i : Inv i [] (init (fb i) (fb_ss i)).
+Proof.
+  constructor; simpl; try reflexivity.
+  unfold registered. simpl. rewrite app_nil_r. reflexivity.
+Qed.
+
+Lemma register_fields r s ss :
+  let r' := fst (register r s ss) in
+  r_fallback r' = r_fallback r /\ r_prefixes r' = r_prefixes r /\ r_ids r' = r_ids r
+  /\ r_sinks r' = r_sinks r ++ (if ss then [s] else []) /\ r_in_run r' = r_in_run r.
+Proof. unfold register. destruct ss; simpl; rewrite ?app_nil_r; repeat split. Qed.
+
+Lemma inv_step i past r o : Inv i past r -> Inv i (past ++ [o]) (fst (step r o)).
+Proof.
+  intros [Hfb Hpre Hids Hsinks Hrun].
+  destruct o as [s p c ss | s t ss | | | via e]; simpl.
+  - (* AddPrefix *)
+    destruct (register (with_rules r (put Nat.eqb p (s, c) (r_prefixes r)) (r_ids r)) s ss) as [r' d] eqn:E.
+    pose proof (register_fields (with_rules r (put Nat.eqb p (s, c) (r_prefixes r)) (r_ids r)) s ss) as F.
+    rewrite E in F. simpl in F. destruct F as (F1 & F2 & F3 & F4 & F5). simpl.
+    constructor.
+    + rewrite F1. exact Hfb.
+    + intro q. rewrite F2, (get_put Nat.eqb Nat.eqb_eq), prefix_rules_snoc.
+      rewrite (Nat.eqb_sym q p). destruct (Nat.eqb p q).
+      * apply in_or_app. right. left. reflexivity.
+      * rewrite app_nil_r. apply Hpre.
+    + intro u. rewrite F3, id_rules_snoc, app_nil_r. apply Hids.
+    + rewrite F4, registered_snoc, Hsinks. destruct ss; reflexivity.
+    + rewrite F5, in_run_snoc. exact Hrun.
+  - (* AddId *)
+    destruct (register (with_rules r (r_prefixes r) (put id_eqb t s (r_ids r))) s ss) as [r' d] eqn:E.
+    pose proof (register_fields (with_rules r (r_prefixes r) (put id_eqb t s (r_ids r))) s ss) as F.
+    rewrite E in F. simpl in F. destruct F as (F1 & F2 & F3 & F4 & F5). simpl.
+    constructor.
+    + rewrite F1. exact Hfb.
+    + intro q. rewrite F2, prefix_rules_snoc, app_nil_r. apply Hpre.
+    + intro u. rewrite F3, (get_put id_eqb id_eqb_spec), id_rules_snoc.
+      destruct (id_eqb u t) eqn:E1.
+      * apply id_eqb_spec in E1. subst u. replace (id_eqb t t) with true by (symmetry; apply id_eqb_spec; reflexivity).
+        apply in_or_app. right. left. reflexivity.
+      * replace (id_eqb t u) with false.
+        -- rewrite app_nil_r. apply Hids.
+        -- symmetry. destruct (id_eqb t u) eqn:E2; [|reflexivity].
+           apply id_eqb_spec in E2. subst u.
+           assert (id_eqb t t = true) by (apply id_eqb_spec; reflexivity). congruence.
+    + rewrite F4, registered_snoc, Hsinks. destruct ss; reflexivity.
+    + rewrite F5, in_run_snoc. exact Hrun.
+  - (* Start *)
+    constructor; simpl; try assumption.
+    + intro q. rewrite prefix_rules_snoc, app_nil_r. apply Hpre.
+    + intro u. rewrite id_rules_snoc, app_nil_r. apply Hids.
+    + rewrite registered_snoc. simpl. rewrite app_nil_r. exact Hsinks.
+    + rewrite in_run_snoc. reflexivity.
+  - (* Stop *)
+    constructor; simpl; try assumption.
+    + intro q. rewrite prefix_rules_snoc, app_nil_r. apply Hpre.
+    + intro u. rewrite id_rules_snoc, app_nil_r. apply Hids.
+    + rewrite registered_snoc. simpl. rewrite app_nil_r. exact Hsinks.
+    + rewrite in_run_snoc. reflexivity.
+  - (* Status: the router is unchanged *)
+    assert (Inv i (past ++ [Status via e]) r).
+    { constructor; try assumption.
+      + intro q. rewrite prefix_rules_snoc, app_nil_r. apply Hpre.
+      + intro u. rewrite id_rules_snoc, app_nil_r. apply Hids.
+      + rewrite registered_snoc. simpl. rewrite app_nil_r. exact Hsinks.
+      + rewrite in_run_snoc. exact Hrun. }
+    destruct (route_status r (pushed via e)) as [[t e']|]; exact H.
+Qed.
+
+(* ---------- sinks named by rules exist ---------- *)
+Lemma prefix_rules_sinks past p s c : In (s, c) (prefix_rules past p) -> In s (flat_map op_sinks past).
+Proof.
+  unfold prefix_rules. intro H. apply in_flat_map in H as [o [Ho H]]. apply in_flat_map. exists o. split; [exact Ho|].
+  destruct o as [s' q c' ss| | | |]; simpl in *; try contradiction.
+  destruct (Nat.eqb q p); simpl in H; [|contradiction]. destruct H as [H|[]]. injection H as -> _. left; reflexivity.
+Qed.
+
+Lemma id_rules_sinks past t s : In s (id_rules past t) -> In s (flat_map op_sinks past).
+Proof.
+  unfold id_rules. intro H. apply in_flat_map in H as [o [Ho H]]. apply in_flat_map. exists o. split; [exact Ho|].
+  destruct o as [|s' u ss| | |]; simpl in *; try contradiction.
+  destruct (id_eqb u t); simpl in H; [|contradiction]. destruct H as [H|[]]. left; exact H.
+Qed.
+
+(* ---------- each call of the model meets its clause of the statement ---------- *)
+Lemma nonempty_in {A} (x : A) l : In x l -> exists y r, l = y :: r.
+Proof. destruct l as [|y r]; [intros []|]. intros _. exists y, r. reflexivity. Qed.
+
+Lemma by_id_ok i past r e0 :
+  Inv i past r ->
+  by_id_or_fallback i past e0
+    (to_obs (n_sinks i)
+       (match get id_eqb (e_id e0) (r_ids r) with
+        | Some t => (false, [(t, St e0)])
+        | None => match r_fallback r with Some t => (false, [(t, St e0)]) | None => (true, []) end
+        end)) = true.
+Proof.
+  intros [Hfb _ Hids _ _]. unfold by_id_or_fallback.
+  specialize (Hids (e_id e0)). destruct (get id_eqb (e_id e0) (r_ids r)) as [t|].
+  - destruct (nonempty_in _ _ Hids) as (y & rs & Ers). rewrite Ers. rewrite <- Ers. simpl.
+    apply existsb_exists. exists t. split; [exact Hids|].
+    apply per_sink_ok. intros k _. apply calls_for_one.
+  - rewrite Hids, Hfb. destruct (fb i) as [f|]; simpl.
+    + apply per_sink_ok. intros k _. apply calls_for_one.
+    + apply per_sink_ok. intros k _. reflexivity.
+Qed.
+
+Lemma status_ok i past r via e :
+  Inv i past r ->
+  (forall s, In s (flat_map op_sinks past) -> s < n_sinks i) ->
+  status_okb i past via e (to_obs (n_sinks i) (snd (step r (Status via e)))) = true.
+Proof.
+  intros HI Hrange. pose proof (fun e0 => by_id_ok i past r e0 HI) as Hrest. destruct HI as [Hfb Hpre Hids _ _].
+  unfold status_okb. simpl step. generalize (pushed via e). intro e0. specialize (Hrest e0).
+  unfold route_status.
+  destruct (first_seg (e_route e0)) as [p|] eqn:Ep.
+  - specialize (Hpre p). destruct (get Nat.eqb p (r_prefixes r)) as [[t c]|] eqn:G.
+    + (* a prefix rule *)
+      destruct (nonempty_in _ _ Hpre) as (y & rs & Ers). rewrite Ers. rewrite <- Ers. simpl.
+      apply existsb_exists. exists (t, c). split; [exact Hpre|].
+      assert (Ht : t < n_sinks i) by (apply Hrange; eapply prefix_rules_sinks; exact Hpre).
+      unfold handed. simpl fst. simpl snd.
+      destruct (per_sink_new_is (n_sinks i)
+                  [(t, St (if c then set_route e0 (strip_first (e_route e0)) else e0))]) as [_ Hn].
+      rewrite (Hn t Ht), calls_for_one. unfold only at 1. rewrite Nat.eqb_refl.
+      apply andb_true_iff. split.
+      * unfold rel_okb, same_but_route. destruct c.
+        -- rewrite set_route_set_route, set_route_same, e_route_set_route, strip_wf.
+           rewrite (route_code_strip p _ Ep).
+           replace (event_eqb e0 e0) with true by (symmetry; apply event_eqb_spec; reflexivity).
+           replace (route_eqb (e_route e0) (e_route e0)) with true by (symmetry; apply route_eqb_spec; reflexivity).
+           reflexivity.
+        -- rewrite set_route_same.
+           replace (event_eqb e0 e0) with true by (symmetry; apply event_eqb_spec; reflexivity).
+           replace (route_eqb (e_route e0) (e_route e0)) with true by (symmetry; apply route_eqb_spec; reflexivity).
+           reflexivity.
+      * apply per_sink_ok. intros k _. apply calls_for_one.
+    + (* no rule for that prefix *)
+      rewrite Hpre.
+      destruct (get id_eqb (e_id e0) (r_ids r)) as [t|]; [simpl snd; exact Hrest|].
+      destruct (r_fallback r); simpl snd; exact Hrest.
+  - destruct (get id_eqb (e_id e0) (r_ids r)) as [t|]; [simpl snd; exact Hrest|].
+    destruct (r_fallback r); simpl snd; exact Hrest.
+Qed.
+
+Lemma add_ok i past r0 s ss :
+  r_in_run r0 = in_run past ->
+  negb (fst (snd (let (r', d) := register r0 s ss in (r', (false, d)))))
+  && new_is (n_sinks i) (if ss && in_run past then only s StartRun else nobody)
+       (per_sink (n_sinks i) (snd (snd (let (r', d) := register r0 s ss in (r', (false, d)))))) = true.
+Proof.
+  intro Hrun. unfold register. rewrite Hrun. destruct ss; simpl.
+  - destruct (in_run past); apply per_sink_ok; intros k _; [apply calls_for_one | reflexivity].
+  - apply per_sink_ok; intros k _; reflexivity.
+Qed.
+
+Lemma step_ok i past r o :
+  Inv i past r ->
+  (forall s, In s (flat_map op_sinks past) -> s < n_sinks i) ->
+  step_okb i past o (to_obs (n_sinks i) (snd (step r o))) = true.
+Proof.
+  intros HI Hrange.
+  destruct o as [s p c ss | s t ss | | | via e].
+  - unfold step_okb, to_obs, step.
+    apply (add_ok i past (with_rules r (put Nat.eqb p (s, c) (r_prefixes r)) (r_ids r)) s ss).
+    simpl. apply (inv_run _ _ _ HI).
+  - unfold step_okb, to_obs, step.
+    apply (add_ok i past (with_rules r (r_prefixes r) (put id_eqb t s (r_ids r))) s ss).
+    simpl. apply (inv_run _ _ _ HI).
+  - simpl. apply per_sink_ok. intros k _. rewrite (inv_sinks _ _ _ HI). apply calls_for_map.
+  - simpl. apply per_sink_ok. intros k _. rewrite (inv_sinks _ _ _ HI). apply calls_for_map.
+  - apply status_ok; assumption.
+Qed.
+
+Lemma run_ok i : forall l past r,
+  Inv i past r ->
+  (forall s, In s (flat_map op_sinks (past ++ l)) -> s < n_sinks i) ->
+  steps_okb i past l (map (to_obs (n_sinks i)) (run r l)) = true.
+Proof.
+  induction l as [|o l IH]; intros past r HI Hrange; simpl; [reflexivity|].
+  pose proof (step_ok i past r o HI) as Hs. pose proof (inv_step i past r o HI) as HI'.
+  destruct (step r o) as [r' out]. simpl in *.
+  apply andb_true_iff. split.
+  - apply Hs. intros s Hin. apply Hrange. rewrite flat_map_app. apply in_or_app. left; exact Hin.
+  - apply IH; [exact HI' |].
+    intros s Hin. apply Hrange. rewrite <- app_assoc in Hin. exact Hin.
+Qed.
+
+Lemma round_ok l :
+  forallb route_wf (status_routes l) = true ->
+  flat_map (fun o => match o with Status via e => [e_route (roundtrip via e)] | _ => [] end) l = status_routes l.
+Proof.
+  unfold status_routes. induction l as [|o l IH]; simpl; [reflexivity|].
+  destruct o as [| | | |via e]; simpl; try exact IH.
+  rewrite andb_true_iff. intros [H1 H2]. rewrite roundtrip_id by exact H1. rewrite IH by exact H2. reflexivity.
+Qed.
+
+Theorem model_meets_spec i : wf i -> spec_okb i (model i) = true.
+Proof.
+  unfold wf, wfb. rewrite andb_true_iff, forallb_forall. intros [Hs Hr].
+  unfold spec_okb, model. simpl. apply andb_true_iff. split.
+  - apply run_ok.
+    + apply inv_init.
+    + intros s Hin. apply Nat.ltb_lt. apply Hs. unfold all_sinks. apply in_or_app. right. exact Hin.
+  - rewrite round_ok by exact Hr. apply (list_eqb_spec _ route_eqb_spec). reflexivity.
+Qed.
+
+(* ---------- the executable statement implies the readable one ---------- *)
+Lemma rel_okb_sound c p e d : rel_okb c p e d = true -> Rel c p e d.
+Proof.
+  unfold rel_okb, Rel, same_but_route. rewrite andb_true_iff, event_eqb_spec. intros [H1 H2]. split; [exact H1|].
+  destruct c.
+  - apply andb_true_iff in H2 as [H2 H3]. apply route_eqb_spec in H3. split; [|exact H3].
+    intro E. rewrite E in H2. discriminate.
+  - apply route_eqb_spec. exact H2.
+Qed.
+
+Lemma by_id_sound i past e0 so :
+  by_id_or_fallback i past e0 so = true ->
+  (id_rules past (e_id e0) <> [] ->
+     s_raised so = false
+     /\ exists s, In s (id_rules past (e_id e0)) /\ New_is (n_sinks i) (only s (St e0)) (s_new so))
+  /\ (id_rules past (e_id e0) = [] ->
+     match fb i with
+     | Some f => s_raised so = false /\ New_is (n_sinks i) (only f (St e0)) (s_new so)
+     | None => s_raised so = true /\ New_is (n_sinks i) nobody (s_new so)
+     end).
+Proof.
+  unfold by_id_or_fallback. destruct (id_rules past (e_id e0)) as [|y ss] eqn:E.
+  - intro H. split; [intro N; exfalso; apply N; reflexivity|]. intros _.
+    destruct (fb i); apply andb_true_iff in H as [H1 H2]; apply new_is_spec in H2; split; try exact H2.
+    + apply negb_true_iff. exact H1.
+    + exact H1.
+  - intro H. split; [|discriminate]. intros _.
+    apply andb_true_iff in H as [H1 H2]. split; [apply negb_true_iff; exact H1|].
+    apply existsb_exists in H2 as [s [Hs H2]]. exists s. split; [exact Hs|]. apply new_is_spec. exact H2.
+Qed.
+
+Lemma status_okb_sound i past via e so : status_okb i past via e so = true -> Status_spec i past via e so.
+Proof.
+  unfold status_okb, Status_spec. generalize (pushed via e). intro e0. cbv zeta.
+  destruct (first_seg (e_route e0)) as [p|] eqn:Ep.
+  - destruct (prefix_rules past p) as [|y rs] eqn:Er.
+    + intro H. apply by_id_sound in H as [H1 H2]. split; [|split].
+      * intros q Hq N. injection Hq as <-. exfalso. apply N. exact Er.
+      * intros _. exact H1.
+      * intros _. exact H2.
+    + intro H. apply andb_true_iff in H as [H1 H2]. split; [|split].
+      * intros q Hq _. injection Hq as <-. split; [apply negb_true_iff; exact H1|].
+        apply existsb_exists in H2 as [[s c] [Hs H2]]. unfold handed in H2. simpl in H2.
+        destruct (nth s (s_new so) []) as [|[| |d] [|? ?]]; try discriminate.
+        apply andb_true_iff in H2 as [H2 H3]. exists s, c, d. rewrite Er.
+        split; [exact Hs|]. split; [apply rel_okb_sound; exact H2 | apply new_is_spec; exact H3].
+      * intro N. specialize (N p eq_refl). rewrite Er in N. discriminate.
+      * intro N. specialize (N p eq_refl). rewrite Er in N. discriminate.
+  - intro H. apply by_id_sound in H as [H1 H2]. split; [|split].
+    + intros q Hq. discriminate.
+    + intros _. exact H1.
+    + intros _. exact H2.
+Qed.
+
+Lemma step_okb_sound i past o so : step_okb i past o so = true -> Step_spec i past o so.
+Proof.
+  destruct o as [s p c ss | s t ss | | | via e]; simpl;
+    try (rewrite andb_true_iff, negb_true_iff, new_is_spec; intros [H1 H2]; split; assumption).
+  apply status_okb_sound.
+Qed.
+
+Lemma steps_okb_sound i : forall l past os,
+  steps_okb i past l os = true ->
+  length os = length l
+  /\ forall k o so, nth_error l k = Some o -> nth_error os k = Some so -> Step_spec i (past ++ firstn k l) o so.
+Proof.
+  induction l as [|o l IH]; intros past [|so os]; simpl; try discriminate.
+  - intros _. split; [reflexivity|]. intros [|k] ? ?; discriminate.
+  - rewrite andb_true_iff. intros [H1 H2]. apply IH in H2 as [L H2]. split; [f_equal; exact L|].
+    intros [|k] o' so' Ho Hso; simpl in *.
+    + injection Ho as <-. injection Hso as <-. rewrite app_nil_r. apply step_okb_sound. exact H1.
+    + specialize (H2 k o' so' Ho Hso). rewrite <- app_assoc in H2. exact H2.
+Qed.
+
+Theorem spec_okb_sound i o : spec_okb i o = true -> Spec i o.
+Proof.
+  unfold spec_okb, Spec. rewrite andb_true_iff. intros [H1 H2].
+  apply steps_okb_sound in H1 as [L H1]. split; [exact L|]. split; [exact H1|].
+  apply (list_eqb_spec _ route_eqb_spec). exact H2.
+Qed.
+
+(* ---------- one rule per key: the history determines the rule ---------- *)
+Lemma nodupb_NoDup {A} (eqb : A -> A -> bool) (Heq : forall a b, eqb a b = true <-> a = b) l :
+  nodupb eqb l = true -> NoDup l.
+Proof.
+  induction l as [|x r IH]; simpl; [constructor|].
+  rewrite andb_true_iff, negb_true_iff. intros [H1 H2]. constructor; [|apply IH; exact H2].
+  intro Hin. assert (existsb (eqb x) r = true); [|congruence].
+  apply existsb_exists. exists x. split; [exact Hin | apply Heq; reflexivity].
+Qed.
+
+Lemma prefix_rules_absent l p : ~ In p (prefix_keys l) -> prefix_rules l p = [].
+Proof.
+  induction l as [|o l IH]; simpl; [reflexivity|]. intro N.
+  unfold prefix_keys in N. simpl in N. fold (prefix_keys l) in N.
+  destruct o as [s q c ss| | | |]; simpl in *; try (apply IH; exact N).
+  destruct (Nat.eqb q p) eqn:E.
+  - apply Nat.eqb_eq in E. exfalso. apply N. left; exact E.
+  - simpl. apply IH. intro H. apply N. right; exact H.
+Qed.
+
+Lemma prefix_rules_unique l p : NoDup (prefix_keys l) -> length (prefix_rules l p) <= 1.
+Proof.
+  induction l as [|o l IH]; simpl; [lia|]. intro N.
+  unfold prefix_keys in N. simpl in N. fold (prefix_keys l) in N.
+  destruct o as [s q c ss| | | |]; simpl in *; try (apply IH; exact N).
+  inversion N as [|? ? N1 N2]; subst.
+  destruct (Nat.eqb q p) eqn:E.
+  - apply Nat.eqb_eq in E. subst q. simpl. rewrite (prefix_rules_absent l p N1). simpl. lia.
+  - simpl. apply IH. exact N2.
+Qed.
+
+Lemma id_rules_absent l t : ~ In t (id_keys l) -> id_rules l t = [].
+Proof.
+  induction l as [|o l IH]; simpl; [reflexivity|]. intro N.
+  unfold id_keys in N. simpl in N. fold (id_keys l) in N.
+  destruct o as [|s u ss| | |]; simpl in *; try (apply IH; exact N).
+  destruct (id_eqb u t) eqn:E.
+  - apply id_eqb_spec in E. exfalso. apply N. left; exact E.
+  - simpl. apply IH. intro H. apply N. right; exact H.
+Qed.
+
+Lemma id_rules_unique l t : NoDup (id_keys l) -> length (id_rules l t) <= 1.
+Proof.
+  induction l as [|o l IH]; simpl; [lia|]. intro N.
+  unfold id_keys in N. simpl in N. fold (id_keys l) in N.
+  destruct o as [|s u ss| | |]; simpl in *; try (apply IH; exact N).
+  inversion N as [|? ? N1 N2]; subst.
+  destruct (id_eqb u t) eqn:E.
+  - apply id_eqb_spec in E. subst u. simpl. rewrite (id_rules_absent l t N1). simpl. lia.
+  - simpl. apply IH. exact N2.
+Qed.
+
+Lemma single {A} (x : A) l : In x l -> length l <= 1 -> l = [x].
+Proof.
+  destruct l as [|y [|z r]]; simpl; [intros [] | | intros _ H; lia].
+  intros [->|[]] _. reflexivity.
+Qed.
+
+Lemma prefix_rules_of_op past s p c ss : In (AddPrefix s p c ss) past -> In (s, c) (prefix_rules past p).
+Proof.
+  intro H. unfold prefix_rules. apply in_flat_map. exists (AddPrefix s p c ss). split; [exact H|].
+  rewrite Nat.eqb_refl. left; reflexivity.
+Qed.
+Lemma prefix_rules_to_op past s p c : In (s, c) (prefix_rules past p) -> exists ss, In (AddPrefix s p c ss) past.
+Proof.
+  unfold prefix_rules. intro H. apply in_flat_map in H as [o [Ho H]].
+  destruct o as [s' q c' ss| | | |]; simpl in H; try contradiction.
+  destruct (Nat.eqb q p) eqn:E; simpl in H; [|contradiction]. apply Nat.eqb_eq in E. subst q.
+  destruct H as [H|[]]. injection H as -> ->. exists ss. exact Ho.
+Qed.
+Lemma id_rules_of_op past s t ss : In (AddId s t ss) past -> In s (id_rules past t).
+Proof.
+  intro H. unfold id_rules. apply in_flat_map. exists (AddId s t ss). split; [exact H|].
+  replace (id_eqb t t) with true by (symmetry; apply id_eqb_spec; reflexivity). left; reflexivity.
+Qed.
+Lemma id_rules_to_op past s t : In s (id_rules past t) -> exists ss, In (AddId s t ss) past.
+Proof.
+  unfold id_rules. intro H. apply in_flat_map in H as [o [Ho H]].
+  destruct o as [|s' u ss| | |]; simpl in H; try contradiction.
+  destruct (id_eqb u t) eqn:E; simpl in H; [|contradiction]. apply id_eqb_spec in E. subst u.
+  destruct H as [H|[]]. subst s'. exists ss. exact Ho.
+Qed.
+
+Lemma NoDup_app_l {A} (a b : list A) : NoDup (a ++ b) -> NoDup a.
+Proof.
+  induction a as [|x a IH]; simpl; intro H; [constructor|].
+  inversion H as [|? ? H1 H2]; subst. constructor; [|apply IH; exact H2].
+  intro Hin. apply H1. apply in_or_app. left; exact Hin.
+Qed.
+
+Lemma NoDup_firstn_keys {A} (f : op -> list A) l k : NoDup (flat_map f l) -> NoDup (flat_map f (firstn k l)).
+Proof.
+  intro H. rewrite <- (firstn_skipn k l), flat_map_app in H. apply NoDup_app_l in H. exact H.
+Qed.
+
+Lemma rel_unique c p e d :
+  first_seg (e_route e) = Some p -> Rel c p e d -> d = if c then set_route e (strip_first (e_route e)) else e.
+Proof.
+  intros Hp [H1 H2]. destruct c.
+  - destruct H2 as [H2 H3].
+    assert (E : e_route d = strip_first (e_route e)).
+    { apply (route_code_inj p).
+      - destruct (e_route d) as [[|? ?]|]; try reflexivity. exfalso. apply H2. reflexivity.
+      - apply strip_wf.
+      - rewrite H3, (route_code_strip p _ Hp). reflexivity. }
+    transitivity (set_route (set_route d (e_route e)) (e_route d)).
+    + rewrite set_route_set_route, set_route_same. reflexivity.
+    + rewrite H1, E. reflexivity.
+  - rewrite <- H1, <- H2. symmetry. apply set_route_same.
+Qed.
+
+Lemma nth_error_model_step i k so :
+  nth_error (o_steps (model i)) k = Some so -> wf i ->
+  forall o, nth_error (ops i) k = Some o -> Step_spec i (firstn k (ops i)) o so.
+Proof.
+  intros Hso Hwf o Ho. pose proof (spec_okb_sound i (model i) (model_meets_spec i Hwf)) as (_ & H & _).
+  exact (H k o so Ho Hso).
+Qed.
+
+Theorem one_sink i : wf i -> wf_distinct i -> forall k via e so,
+  nth_error (ops i) k = Some (Status via e) -> nth_error (o_steps (model i)) k = Some so ->
+  let past := firstn k (ops i) in
+  let e0 := pushed via e in
+  let n := n_sinks i in
+  let no_prefix_rule := forall s p c ss, In (AddPrefix s p c ss) past -> first_seg (e_route e0) <> Some p in
+  let no_id_rule := forall s ss, ~ In (AddId s (e_id e0) ss) past in
+  (forall s p c ss, In (AddPrefix s p c ss) past -> first_seg (e_route e0) = Some p ->
+     s_raised so = false
+     /\ New_is n (only s (St (if c then set_route e0 (strip_first (e_route e0)) else e0))) (s_new so))
+  /\ (no_prefix_rule -> forall s ss, In (AddId s (e_id e0) ss) past ->
+     s_raised so = false /\ New_is n (only s (St e0)) (s_new so))
+  /\ (no_prefix_rule -> no_id_rule -> forall f, fb i = Some f ->
+     s_raised so = false /\ New_is n (only f (St e0)) (s_new so))
+  /\ (no_prefix_rule -> no_id_rule -> fb i = None ->
+     s_raised so = true /\ New_is n nobody (s_new so)).
+Proof.
+  intros Hwf Hd k via e so Ho Hso past e0 n no_prefix_rule no_id_rule.
+  pose proof (nth_error_model_step i k so Hso Hwf _ Ho) as HS. simpl in HS.
+  unfold Status_spec in HS. fold past e0 n in HS. cbv zeta in HS. destruct HS as (HS1 & HS2 & HS3).
+  unfold wf_distinct, wf_distinctb in Hd. apply andb_true_iff in Hd as [Hd Hd3]. apply andb_true_iff in Hd as [Hd1 Hd2].
+  apply (nodupb_NoDup _ Nat.eqb_eq) in Hd2. apply (nodupb_NoDup _ id_eqb_spec) in Hd3.
+  assert (Up : forall p, length (prefix_rules past p) <= 1).
+  { intro p. apply prefix_rules_unique. apply NoDup_firstn_keys. exact Hd2. }
+  assert (Ui : forall t, length (id_rules past t) <= 1).
+  { intro t. apply id_rules_unique. apply NoDup_firstn_keys. exact Hd3. }
+  assert (NP : no_prefix_rule -> forall p, first_seg (e_route e0) = Some p -> prefix_rules past p = []).
+  { intros N p Hp. destruct (prefix_rules past p) as [|[s c] rs] eqn:E; [reflexivity|]. exfalso.
+    destruct (prefix_rules_to_op past s p c) as [ss Hin]; [rewrite E; left; reflexivity|].
+    exact (N s p c ss Hin Hp). }
+  assert (NI : no_id_rule -> id_rules past (e_id e0) = []).
+  { intros N. destruct (id_rules past (e_id e0)) as [|s rs] eqn:E; [reflexivity|]. exfalso.
+    destruct (id_rules_to_op past s (e_id e0)) as [ss Hin]; [rewrite E; left; reflexivity|].
+    exact (N s ss Hin). }
+  split; [|split; [|split]].
+  - intros s p c ss Hin Hp. apply prefix_rules_of_op in Hin.
+    pose proof (single _ _ Hin (Up p)) as E.
+    destruct (HS1 p Hp) as [R (s' & c' & d & Hin' & HR & HN)]; [rewrite E; discriminate|].
+    split; [exact R|]. rewrite E in Hin'. destruct Hin' as [Hin'|[]]. injection Hin' as <- <-.
+    rewrite <- (rel_unique c p e0 d Hp HR). exact HN.
+  - intros N s ss Hin. apply id_rules_of_op in Hin.
+    pose proof (single _ _ Hin (Ui (e_id e0))) as E.
+    destruct (HS2 (NP N)) as [R (s' & Hin' & HN)]; [rewrite E; discriminate|].
+    split; [exact R|]. rewrite E in Hin'. destruct Hin' as [<-|[]]. exact HN.
+  - intros N1 N2 f Hf. specialize (HS3 (NP N1) (NI N2)). rewrite Hf in HS3. exact HS3.
+  - intros N1 N2 Hf. specialize (HS3 (NP N1) (NI N2)). rewrite Hf in HS3. exact HS3.
+Qed.
+
+(* ---------- startTestRun / stopTestRun ---------- *)
+Lemma count_app s a b : count s (a ++ b) = count s a + count s b.
+Proof. unfold count. apply count_occ_app. Qed.
+
+Lemma count_registration_le s l : count s (flat_map registration l) <= count s (flat_map op_sinks l).
+Proof.
+  induction l as [|o l IH]; simpl; [lia|]. rewrite !count_app.
+  assert (count s (registration o) <= count s (op_sinks o)); [|lia].
+  destruct o as [s' p c [|]|s' t [|]| | |]; simpl; try lia; destruct (Nat.eq_dec s' s); lia.
+Qed.
+
+Lemma count_firstn_le {A} (f : A -> list sink) s l k : count s (flat_map f (firstn k l)) <= count s (flat_map f l).
+Proof.
+  rewrite <- (firstn_skipn k l) at 2. rewrite flat_map_app, count_app. lia.
+Qed.
+
+Lemma registered_count_le i k s : count s (registered i (firstn k (ops i))) <= count s (all_sinks i).
+Proof.
+  unfold registered, all_sinks. rewrite !count_app.
+  pose proof (count_registration_le s (firstn k (ops i))).
+  pose proof (count_firstn_le op_sinks s (ops i) k).
+  assert (count s match fb i with Some s0 => if fb_ss i then [s0] else [] | None => [] end
+          <= count s match fb i with Some s0 => [s0] | None => [] end); [|lia].
+  destruct (fb i); [destruct (fb_ss i)|]; simpl; lia.
+Qed.
+
+Lemma count_memb s l : count s l <= 1 -> repeat StartRun (count s l) = (if memb s l then [StartRun] else [])
+                                      /\ repeat StopRun (count s l) = (if memb s l then [StopRun] else []).
+Proof.
+  intro H. destruct (memb s l) eqn:M.
+  - assert (count s l = 1) as ->; [|split; reflexivity].
+    apply existsb_exists in M as [x [Hx E]]. apply Nat.eqb_eq in E. subst x.
+    apply (count_occ_In Nat.eq_dec) in Hx. unfold count in *. lia.
+  - assert (count s l = 0) as ->; [|split; reflexivity].
+    apply (count_occ_not_In Nat.eq_dec). intro Hx.
+    assert (memb s l = true); [|congruence].
+    apply existsb_exists. exists s. split; [exact Hx | apply Nat.eqb_refl].
+Qed.
+
+Lemma status_spec_no_start_stop i past via e so s :
+  Status_spec i past via e so -> s < n_sinks i -> filter is_start_stop (nth s (s_new so) []) = [].
+Proof.
+  unfold Status_spec. generalize (pushed via e). intro e0. cbv zeta. intros (H1 & H2 & H3) Hs.
+  assert (Honly : forall t c, New_is (n_sinks i) (only t (St c)) (s_new so) ->
+                              filter is_start_stop (nth s (s_new so) []) = []).
+  { intros t c [_ HN]. rewrite (HN s Hs). unfold only. destruct (Nat.eqb s t); reflexivity. }
+  assert (Hrest : (forall p, first_seg (e_route e0) = Some p -> prefix_rules past p = []) ->
+                  filter is_start_stop (nth s (s_new so) []) = []).
+  { intro N. destruct (id_rules past (e_id e0)) as [|y ss] eqn:Ei.
+    - specialize (H3 N eq_refl). destruct (fb i) as [f|].
+      + destruct H3 as [_ HN]. exact (Honly _ _ HN).
+      + destruct H3 as [_ [_ HN]]. rewrite (HN s Hs). reflexivity.
+    - destruct (H2 N) as [_ (t & _ & HN)]; [discriminate|]. exact (Honly _ _ HN). }
+  destruct (first_seg (e_route e0)) as [p|] eqn:Ep.
+  - destruct (prefix_rules past p) as [|y rs] eqn:Er.
+    + apply Hrest. intros q Hq. injection Hq as <-. exact Er.
+    + destruct (H1 p eq_refl) as [_ (t & c & d & _ & _ & HN)]; [rewrite Er; discriminate|]. exact (Honly _ _ HN).
+  - apply Hrest. intros q Hq. discriminate.
+Qed.
+
+Theorem start_stop i : wf i -> wf_distinct i -> forall k o so s,
+  nth_error (ops i) k = Some o -> nth_error (o_steps (model i)) k = Some so -> s < n_sinks i ->
+  let past := firstn k (ops i) in
+  filter is_start_stop (nth s (s_new so) []) =
+    match o with
+    | Start => if memb s (registered i past) then [StartRun] else []
+    | Stop => if memb s (registered i past) then [StopRun] else []
+    | AddPrefix s' _ _ ss | AddId s' _ ss => if Nat.eqb s' s && ss && in_run past then [StartRun] else []
+    | Status _ _ => []
+    end.
+Proof.
+  intros Hwf Hd k o so s Ho Hso Hs past.
+  pose proof (nth_error_model_step i k so Hso Hwf _ Ho) as HS. fold past in HS.
+  unfold wf_distinct, wf_distinctb in Hd. apply andb_true_iff in Hd as [Hd _]. apply andb_true_iff in Hd as [Hd _].
+  apply (nodupb_NoDup _ Nat.eqb_eq) in Hd.
+  assert (Hc : count s (registered i past) <= 1).
+  { etransitivity; [apply registered_count_le|]. apply (NoDup_count_occ Nat.eq_dec). exact Hd. }
+  destruct (count_memb s _ Hc) as [C1 C2].
+  assert (Hadd : forall s' ss, s_raised so = false /\
+                   New_is (n_sinks i) (if ss && in_run past then only s' StartRun else nobody) (s_new so) ->
+                 filter is_start_stop (nth s (s_new so) []) = if Nat.eqb s' s && ss && in_run past then [StartRun] else []).
+  { intros s' ss [_ [_ HN]]. rewrite (HN s Hs). rewrite (Nat.eqb_sym s' s), <- andb_assoc.
+    destruct (ss && in_run past); [|rewrite andb_false_r; reflexivity].
+    rewrite andb_true_r. unfold only. destruct (Nat.eqb s s'); reflexivity. }
+  destruct o as [s' p c ss | s' t ss | | | via e]; simpl in HS.
+  - apply Hadd. exact HS.
+  - apply Hadd. exact HS.
+  - destruct HS as [_ [_ HN]]. rewrite (HN s Hs), C1. destruct (memb s (registered i past)); reflexivity.
+  - destruct HS as [_ [_ HN]]. rewrite (HN s Hs), C2. destruct (memb s (registered i past)); reflexivity.
+  - eapply status_spec_no_start_stop; [exact HS | exact Hs].
+Qed.
+
+Lemma firstn_le_incl {A} (l : list A) : forall j k x, j <= k -> In x (firstn j l) -> In x (firstn k l).
+Proof.
+  induction l as [|y l IH]; intros j k x Hjk Hin.
+  - rewrite firstn_nil in Hin. destruct Hin.
+  - destruct j as [|j]; [destruct Hin|]. destruct k as [|k]; [lia|]. simpl in *.
+    destruct Hin as [->|Hin]; [left; reflexivity | right; apply (IH j k); [lia | exact Hin]].
+Qed.
+
+(* once registered, registered for good; registration = the fallback flag or an add_rule with do_start_stop_run *)
+Lemma registered_mono i j k s : j <= k ->
+  memb s (registered i (firstn j (ops i))) = true -> memb s (registered i (firstn k (ops i))) = true.
+Proof.
+  intros Hjk H. apply existsb_exists in H as [x [Hx E]]. apply existsb_exists. exists x. split; [|exact E].
+  unfold registered in *. apply in_app_or in Hx as [Hx|Hx]; apply in_or_app; [left; exact Hx|right].
+  apply in_flat_map in Hx as [o [Ho Hx]]. apply in_flat_map. exists o. split; [|exact Hx].
+  apply (firstn_le_incl _ j k); assumption.
+Qed.
+
+Lemma registered_at i k s o : nth_error (ops i) k = Some o -> In s (registration o) ->
+  memb s (registered i (firstn (S k) (ops i))) = true.
+Proof.
+  intros Ho Hin. apply existsb_exists. exists s. split; [|apply Nat.eqb_refl].
+  unfold registered. apply in_or_app. right. apply in_flat_map. exists o. split; [|exact Hin].
+  clear Hin. revert k Ho. generalize (ops i). induction l as [|x l IH]; intros [|k] Ho; simpl in *; try discriminate.
+  - injection Ho as ->. left; reflexivity.
+  - right. apply IH. exact Ho.
+Qed.
+
+(* ---------- push and pop, nested ---------- *)
+Theorem push_pop c r : route_wf r = true ->
+  first_seg (route_code c r) = Some c /\ strip_first (route_code c r) = r.
+Proof. intro H. split; [apply first_seg_route_code | apply strip_route_code; exact H]. Qed.
+
+(* ---------- the same on '/'-joined strings ---------- *)
+Section Strings.
+  Variable name : seg -> str.
+  Hypothesis name_nonempty : forall s, name s <> [].
+  Hypothesis name_noslash : forall s, ~ In slash (name s).
+
+  Lemma str_head_app a b : ~ In slash a -> str_head (a ++ slash :: b) = a.
+  Proof.
+    induction a as [|c a IH]; simpl; intro N.
+    - reflexivity.
+    - destruct (Nat.eqb c slash) eqn:E; [apply Nat.eqb_eq in E; exfalso; apply N; left; exact E|].
+      rewrite IH; [reflexivity|]. intro H. apply N. right; exact H.
+  Qed.
+
+  Lemma str_head_noslash a : ~ In slash a -> str_head a = a.
+  Proof.
+    induction a as [|c a IH]; simpl; intro N; [reflexivity|].
+    destruct (Nat.eqb c slash) eqn:E; [apply Nat.eqb_eq in E; exfalso; apply N; left; exact E|].
+    rewrite IH; [reflexivity|]. intro H. apply N. right; exact H.
+  Qed.
+
+  Lemma render_segs_cons s t l : render_segs name (s :: t :: l) = name s ++ slash :: render_segs name (t :: l).
+  Proof. reflexivity. Qed.
+
+  Lemma render_segs_nonempty t l : render_segs name (t :: l) <> [].
+  Proof.
+    destruct l as [|u l]; [apply name_nonempty|]. rewrite render_segs_cons.
+    intro H. apply app_eq_nil in H as [_ H]. discriminate.
+  Qed.
+
+  (* route_code.split("/")[0] is the first segment *)
+  Theorem str_first_seg r : route_wf r = true ->
+    option_map str_head (render name r) = option_map name (first_seg r).
+  Proof.
+    destruct r as [[|s [|t l]]|]; simpl; intro H; try discriminate; try reflexivity.
+    - rewrite str_head_noslash by apply name_noslash. reflexivity.
+    - change (name s ++ slash :: render_segs name (t :: l)) with (name s ++ slash :: render_segs name (t :: l)).
+      f_equal. apply (str_head_app (name s)). apply name_noslash.
+  Qed.
+
+  (* routing_code + "/" + route_code prepends one segment *)
+  Theorem str_push c r : route_wf r = true ->
+    str_route_code (name c) (render name r) = render name (route_code c r).
+  Proof. destruct r as [[|s l]|]; simpl; intro H; try discriminate; reflexivity. Qed.
+
+  (* route_code[len(prefix) + 1:] or None removes exactly the first segment *)
+  Theorem str_pop r : route_wf r = true -> str_consume (render name r) = render name (strip_first r).
+  Proof.
+    destruct r as [[|s [|t l]]|]; intro H; try discriminate; try reflexivity.
+    - simpl. rewrite str_head_noslash by apply name_noslash.
+      rewrite skipn_all2 by lia. reflexivity.
+    - unfold render, strip_first, option_map, str_consume. rewrite render_segs_cons.
+      pose proof (render_segs_nonempty t l) as NE.
+      remember (render_segs name (t :: l)) as R eqn:ER. clear ER.
+      rewrite (str_head_app (name s)) by apply name_noslash.
+      replace (length (name s) + 1) with (length (name s ++ [slash])) by (rewrite app_length; reflexivity).
+      replace (name s ++ slash :: R) with ((name s ++ [slash]) ++ R) by (rewrite <- app_assoc; reflexivity).
+      rewrite skipn_app, skipn_all, Nat.sub_diag. simpl.
+      destruct R; [exfalso; apply NE; reflexivity | reflexivity].
+  Qed.
+
+  (* hence, on strings: popping what StreamToQueue pushed gives the original code back *)
+  Corollary str_push_pop c r : route_wf r = true ->
+    str_consume (str_route_code (name c) (render name r)) = render name r.
+  Proof.
+    intro H. rewrite str_push by exact H. rewrite str_pop by apply route_code_wf.
+    rewrite strip_route_code by exact H. reflexivity.
+  Qed.
+End Strings.
+
+(* an event sent through StreamToQueue(c) and then through a router with a consuming rule for c
+   arrives at that rule's sink exactly as it was sent *)
+Theorem router_pops r c s e :
+  get Nat.eqb c (r_prefixes r) = Some (s, true) -> route_wf (e_route e) = true ->
+  route_status r (pushed [c] e) = Some (s, e).
+Proof.
+  intros G H. unfold route_status, pushed, push_all. simpl fold_left.
+  rewrite e_route_set_route, first_seg_route_code, G.
+  rewrite set_route_set_route, strip_route_code by exact H. rewrite set_route_same. reflexivity.
+Qed.
